@@ -4,10 +4,13 @@ import storelib
 
 CFGS = {
     "quick": [("c14-a", dict(BadMode='"type-size"', MaxStmts=3, MaxRows=3, MaxFlush=0, Tables='{"t1", "t2"}', Vals="{1}"), None),
-              ("c14-b", dict(BadMode='"count-range"', MaxStmts=3, MaxRows=2, MaxFlush=1, Tables='{"t1"}', Vals="{1, 2}"), None)],
+              ("c14-b", dict(BadMode='"count-range"', MaxStmts=3, MaxRows=2, MaxFlush=1, Tables='{"t1"}', Vals="{1, 2}"), None),
+              # rows with a NULL INT column and WHERE clauses that fail on them (`a >= k`): the statement must fail before touching any row
+              ("c14-n", dict(BadMode='"type-size"', MaxStmts=5, MaxRows=1, MaxFlush=0, Tables='{"t1"}', Vals="{1, 9}", Wheres="{0, 1, 101}", Ops='{"create", "insert", "update", "delete"}'), None)],
     "thorough": [("c14-a", dict(BadMode='"type-size"', MaxStmts=4, MaxRows=3, MaxFlush=1, Tables='{"t1", "t2"}', Vals="{1}"), 80000),
                  ("c14-b", dict(BadMode='"count-range"', MaxStmts=4, MaxRows=3, MaxFlush=1, Tables='{"t1"}', Vals="{1, 2}"), 60000),
-                 ("c14-c", dict(BadMode='"all"', MaxStmts=3, MaxRows=4, MaxFlush=0, Tables='{"t1"}', Vals="{1}"), 60000)],
+                 ("c14-c", dict(BadMode='"all"', MaxStmts=3, MaxRows=4, MaxFlush=0, Tables='{"t1"}', Vals="{1}"), 60000),
+                 ("c14-n", dict(BadMode='"type-size"', MaxStmts=6, MaxRows=2, MaxFlush=1, Tables='{"t1"}', Vals="{1, 2, 9}", Wheres="{0, 1, 101, 102}"), 80000)],
 }
 
 
